@@ -199,6 +199,26 @@ def run(chk):
             if not np.allclose(np.asarray(mfr.weights), wfr, rtol=1e-10, atol=1e-14):
                 chk.fail("MAP weights from statistics with a fractional total frame count (t = %.3g) are not the renormalised blend a n/t + (1-a) w_prior" % float(stf.t),
                          dict(ctx, t=float(stf.t), got=hexlist(mfr.weights), want=hexlist(wfr)))
+        # ---- statistics accumulated once and used for several adaptations through the public M-step: not consumed, every use gives what a
+        #      fresh copy of the statistics gives
+        if i % 4 == 1:
+            from bob.learn.em import gmm as gmm_module2
+            st_once = prior.acc_stats(X)
+            st_keep = copy.deepcopy(st_once)
+            for rep_ in range(2):
+                mu_, _ = gt.build_machine(dict(cfg, cap=1))
+                mf_, _ = gt.build_machine(dict(cfg, cap=1))
+                gmm_module2.m_step([st_once], mu_)
+                gmm_module2.m_step([copy.deepcopy(st_keep)], mf_)
+                chk.count(1, key=("statistics reused across M-steps", rep_))
+                same_ = all(np.array_equal(np.asarray(getattr(mu_, a_)), np.asarray(getattr(mf_, a_))) for a_ in ("weights", "means", "variances"))
+                kept_ = all(np.array_equal(np.asarray(getattr(st_once, a_)), np.asarray(getattr(st_keep, a_))) for a_ in ("n", "sum_px", "sum_pxx"))
+                if not kept_:
+                    chk.fail("the MAP M-step modifies the statistics object it is given (use %d)" % (rep_ + 1), dict(ctx, use=rep_ + 1))
+                    break
+                if not same_:
+                    chk.fail("the MAP M-step on statistics that were already used once gives another model than on a fresh copy of them", dict(ctx, use=rep_ + 1))
+                    break
         # prior untouched
         if not (np.array_equal(prior.means, p0.means) and np.array_equal(prior.variances, p0.variances) and np.array_equal(prior.weights, p0.weights)):
             chk.fail("the prior (UBM) was modified by MAP training", ctx)
